@@ -79,6 +79,11 @@ CHECKS = {
          "No operation changes or reads anything outside the project or any hidden entry, non-editor/unknown/write-disabled callers change nothing; in every explored schedule each successful write was based on the content of the previous successful write and the file equals the last successful write.",
          "Expired sessions are represented by never-issued tokens (the clock seam is not public); reads that leave no trace are seen only through access times; writer schedules at Mutex + hooked file read/write granularity.",
          "DESIGN.md §2.3, §5 C19"),
+ "C05": ("exploration",
+         "(a) exhaustive exploration of iteration orders: every order-exposing traversal of a hash collection in the bytecode encoder (hooked through verif_map) is a choice point, all alternative orders explored depth-first to a deviation bound, emitted container compared byte for byte; (b) differential sweep: every corpus program compiled and run for 3 cycles in N independent OS processes x 2 threads (own hash seeds, layout, environment size), container bytes / per-cycle state / faults / runtime events compared",
+         "Corpus of ~930 compiling programs (generated wide programs with k types, interfaces, functions, FBs with methods, programs, tasks; every repository .st file; one case of every ST-core feature): the container never depends on an explored iteration order and all observations are identical across processes and threads.",
+         "The hash-seed space and memory layouts cannot be enumerated: (b) is a fixed-size sweep, not an enumeration, and is labelled so in the evidence; (a) is exhaustive only over the hooked encoder collections (currently 0 order-exposing traversals are reached, i.e. the order family holds trivially today).",
+         "DESIGN.md §5 C05, §6"),
 }
 
 NOT_APPLICABLE = {
